@@ -154,3 +154,114 @@ def rect_replay():
 _truth_lemmas(2, 2)
 _truth_lemmas(3, 3)
 _truth_lemmas(2, 3)
+
+
+# ----------------------------------------------------------------------------------------------
+# Auer's instance.  The componentwise order; a design's displayed region is the box centre +- own half-widths.
+#   CERT(i, j):  m^(i, j) exceeds w_i,k + w_j,k in EVERY objective k          (the discarding test of the real body)
+#   PASS(p, j):  not ( M^(p, j) < w_p,k + w_j,k for every k )                  (first stage of pareto_updating: p passes against j)
+#   FREE(x, q):  not ( M^(x, q) <= w_q,k + w_x,k for every k )                 (second stage: the non-passing x does not need q)
+# Consumed of the real bodies (C02/C03 Auer tasks, safe/ and mono/ clauses, discharged as dependencies of this check):
+#   a design leaves S only with CERT against another candidate; it enters P only from S, only if it PASSes against every
+#   other candidate and every non-passing candidate is FREE of it.
+# Truth-level meaning of the three tests when the truths are inside the boxes: the arithmetic lemma below.
+# ----------------------------------------------------------------------------------------------
+
+@task("C01", "lemma.Auer")
+def _auer_lemma(t):
+    t.mode = "lemma over the Auer step contracts; sets, test answers and true means arbitrary"
+    N = z3.Int("N")
+    S0, P0, S1, S2, P2 = z3.Consts("S0 P0 S1 S2 P2", SM.SETSORT)
+    Td = z3.Function("Td", I, I, z3.BoolSort())
+    G = z3.Function("G", I, I, z3.BoolSort())
+    CERT = z3.Function("CERT", I, I, z3.BoolSort())
+    PASS = z3.Function("PASS", I, I, z3.BoolSort())
+    FREE = z3.Function("FREE", I, I, z3.BoolSort())
+    rank = z3.Function("rank_truth", I, z3.RealSort())     # sum of the true objective values
+    dsg = lambda i: z3.And(i >= 0, i < N)
+    inS = lambda i: z3.Select(S0, i)
+    t.assume(N >= 0, z3.ForAll([e], z3.Implies(z3.Or(z3.Select(S0, e), z3.Select(P0, e)), dsg(e))),
+             z3.ForAll([e], z3.Not(z3.And(z3.Select(S0, e), z3.Select(P0, e)))))
+    t.assume(z3.ForAll([x], Td(x, x)), z3.ForAll([x, y, e], z3.Implies(z3.And(Td(x, y), Td(y, e)), Td(x, e))),
+             z3.ForAll([x], G(x, x)), z3.ForAll([p, a_, q], z3.Implies(z3.And(G(p, a_), Td(a_, q)), G(p, q))),
+             z3.ForAll([x, y], z3.Implies(Td(x, y), rank(x) >= rank(y))))
+    # meaning of the tests for candidates (H-valid: the truths of the candidates are inside their displayed boxes); the
+    # arithmetic is lemma.Auer_truth_level_facts
+    t.axiom("H-valid + arithmetic lemma: a certified pair is strictly dominated in truth", z3.ForAll([x, y], z3.Implies(z3.And(inS(x), inS(y), CERT(x, y)), z3.And(Td(y, x), rank(y) > rank(x)))))
+    t.axiom("H-valid + arithmetic lemma: a passing pair has gap at most eps", z3.ForAll([x, y], z3.Implies(z3.And(inS(x), inS(y), PASS(x, y)), G(x, y))))
+    t.axiom("H-valid + arithmetic lemma: a free pair has gap at most eps", z3.ForAll([x, y], z3.Implies(z3.And(inS(x), inS(y), FREE(x, y)), G(x, y))))
+    t.must_fail()
+    alive = lambda Sx, Px: (lambda i: z3.Or(z3.Select(Sx, i), z3.Select(Px, i)))
+    I2 = lambda Sx, Px: z3.ForAll([d_], z3.Implies(z3.And(dsg(d_), z3.Not(alive(Sx, Px)(d_))), z3.Exists([a_], z3.And(alive(Sx, Px)(a_), Td(a_, d_)))))
+    I3 = lambda Px: z3.ForAll([p, q], z3.Implies(z3.And(z3.Select(Px, p), dsg(q)), G(p, q)))
+    I4 = lambda Sx, Px: z3.ForAll([x, q], z3.Implies(z3.And(z3.Select(Sx, x), z3.Select(Px, q)), G(x, q)))
+    # ---- discarding
+    disc = z3.And(z3.ForAll([e], z3.Implies(z3.Select(S1, e), z3.Select(S0, e))),
+                  z3.ForAll([e], z3.Implies(z3.And(z3.Select(S0, e), z3.Not(z3.Select(S1, e))), z3.Exists([y], z3.And(inS(y), y != e, CERT(e, y))))))
+    pd, astar = z3.Int("pd"), z3.Int("astar")
+    Dset = lambda i: z3.And(alive(S0, P0)(i), Td(i, pd))
+    t.axiom("finite_argmax: a real function on a non-empty finite set attains its maximum (one instance)",
+            z3.Implies(z3.Exists([y], Dset(y)), z3.And(Dset(astar), z3.ForAll([y], z3.Implies(Dset(y), rank(y) <= rank(astar))))))
+    t.prove("I2a:a_design_discarded_now_is_weakly_dominated_by_a_design_that_stays_active",
+            z3.Implies(z3.And(disc, dsg(pd), z3.Select(S0, pd), z3.Not(z3.Select(S1, pd))), z3.And(alive(S1, P0)(astar), Td(astar, pd))))
+    claimC = z3.ForAll([x], z3.Implies(z3.And(z3.Select(S0, x), z3.Not(z3.Select(S1, x))), z3.Exists([a_], z3.And(alive(S1, P0)(a_), Td(a_, x)))))
+    t.prove("I2b:every_discarded_design_keeps_a_dominator_among_the_active_ones(given I2a for each new discard)",
+            z3.Implies(z3.And(disc, I2(S0, P0), claimC), I2(S1, P0)))
+    t.prove("I4:kept_by_discarding", z3.Implies(z3.And(disc, I4(S0, P0)), I4(S1, P0)))
+    # ---- pareto_updating
+    P1 = lambda i: z3.ForAll([y], z3.Implies(z3.And(inS(y), y != i), PASS(i, y)))
+    HELD = lambda i: z3.Exists([a_], z3.And(inS(a_), z3.Not(P1(a_)), z3.Not(FREE(a_, i))))   # (a_: P1 binds y itself)
+    prom = z3.And(z3.ForAll([e], z3.Implies(z3.And(z3.Select(P2, e), z3.Not(z3.Select(P0, e))), z3.And(inS(e), P1(e), z3.Not(HELD(e))))),
+                  z3.ForAll([e], z3.Implies(z3.Select(S0, e), z3.Or(z3.Select(S2, e), z3.Select(P2, e)))),
+                  z3.ForAll([e], z3.Implies(z3.Select(S2, e), z3.Select(S0, e))),
+                  z3.ForAll([e], z3.Implies(z3.Select(P0, e), z3.Select(P2, e))),
+                  z3.ForAll([e], z3.Implies(z3.Select(P2, e), z3.Or(z3.Select(P0, e), z3.Select(S0, e)))),
+                  z3.ForAll([e], z3.Not(z3.And(z3.Select(S2, e), z3.Select(P2, e)))))
+    t.prove("I3:a_promoted_design_has_gap_at_most_eps_against_every_design", z3.Implies(z3.And(I2(S0, P0), I3(P0), I4(S0, P0), prom), I3(P2)), timeout_ms=max(t.timeout_ms, 60000))
+    t.prove("I4:every_remaining_candidate_has_gap_at_most_eps_against_every_member_of_P", z3.Implies(z3.And(I4(S0, P0), prom), I4(S2, P2)), timeout_ms=max(t.timeout_ms, 60000))
+    t.prove("I2:promotion_keeps_the_active_union", z3.Implies(prom, z3.ForAll([e], alive(S0, P0)(e) == alive(S2, P2)(e))))
+    # ---- final
+    empty = z3.ForAll([e], z3.Not(z3.Select(S0, e)))
+    t.prove("final:every_design_left_out_of_P_is_weakly_dominated_by_a_member_of_P", z3.Implies(z3.And(empty, I2(S0, P0)),
+            z3.ForAll([d_], z3.Implies(z3.And(dsg(d_), z3.Not(z3.Select(P0, d_))), z3.Exists([a_], z3.And(z3.Select(P0, a_), Td(a_, d_)))))))
+    t.prove("final:every_member_of_P_has_gap_at_most_eps", z3.Implies(I3(P0), z3.ForAll([p, q], z3.Implies(z3.And(z3.Select(P0, p), dsg(q)), G(p, q)))))
+
+
+def _auer_truth(m):
+    @task("C01", "lemma.Auer_truth_level_facts[m=%d]" % m)
+    def _t(t):
+        """Arithmetic behind CERT / PASS / FREE for two candidates whose true means lie in their displayed boxes
+        (componentwise order, alpha_k = 1: gap(p, q) <= eps  iff  some objective has mu_q <= mu_p + eps)."""
+        cp, cq, wp, wq, mp, mq = (S.reals(n, m) for n in ("cp", "cq", "wp", "wq", "mp", "mq"))
+        eps = z3.Real("eps")
+        inside = z3.And(*[z3.And(cp[k] - wp[k] <= mp[k], mp[k] <= cp[k] + wp[k], cq[k] - wq[k] <= mq[k], mq[k] <= cq[k] + wq[k]) for k in range(m)])
+        zmax = lambda v: __import__("functools").reduce(lambda a, b: z3.If(b > a, b, a), v)
+        zmin = lambda v: __import__("functools").reduce(lambda a, b: z3.If(b < a, b, a), v)
+        small_m = zmax([z3.RealVal(0), zmin([cq[k] - cp[k] for k in range(m)])])                    # m^(p, q)
+        big_m = lambda a, b: zmax([z3.RealVal(0), zmax([a[k] + eps - b[k] for k in range(m)])])      # M^(a, b)
+        pre = z3.And(eps >= 0, inside)
+        nondeg = z3.And(*[z3.And(wp[k] > 0, wq[k] > 0) for k in range(m)])
+        uniform = z3.And(*[z3.And(wp[k] == wp[0], wq[k] == wq[0]) for k in range(m)])
+        cert = z3.And(*[small_m > wp[k] + wq[k] for k in range(m)])
+        t.prove("CERT:a_design_beaten_by_more_than_both_own_widths_in_every_objective_is_strictly_dominated_in_truth",
+                z3.Implies(z3.And(pre, z3.And(*[w >= 0 for w in wp + wq]), cert), z3.And(*[mq[k] > mp[k] for k in range(m)])), use_pre=False)
+        gap_ok = z3.Or(*[mq[k] <= mp[k] + eps for k in range(m)])
+        passes = z3.Not(z3.And(*[big_m(cp, cq) < wp[k] + wq[k] for k in range(m)]))
+        free = z3.Not(z3.And(*[big_m(cp, cq) <= wp[k] + wq[k] for k in range(m)]))
+        # the tests compare ONE scalar M^ with EVERY objective's summed width: with per-objective widths (use_empirical_beta)
+        # a single narrow objective lets the pair pass although the truths differ by more than eps in every objective
+        t.prove("PASS_and_FREE:a_pair_that_passes_the_promotion_tests_has_gap_at_most_eps(per-objective widths)",
+                z3.Implies(z3.And(pre, nondeg, z3.Or(passes, free)), gap_ok), use_pre=False, replay=auer_widths_replay())
+        t.prove("PASS_and_FREE:a_pair_that_passes_the_promotion_tests_has_gap_at_most_eps/residual(widths equal across objectives)",
+                z3.Implies(z3.And(pre, nondeg, uniform, z3.Or(passes, free)), gap_ok), use_pre=False)
+    return _t
+
+
+def auer_widths_replay():
+    def builder(mdl):
+        return ["exec(open('replays/known/C01_auer_per_objective_widths.py').read())"]
+    return builder
+
+
+_auer_truth(2)
+_auer_truth(3)
